@@ -1,4 +1,134 @@
+import IpcHub.Drv.Util
+import IpcHub.Model.PullInst
+import IpcHub.Spec.Pull
 namespace IpcHub.Drv.C20
-/-- placeholder: no model built for this property yet -/
-def handle (_ : List String) : String := "bad-op"
+open IpcHub.Drv IpcHub.Pull IpcHub.PullSpec
+
+def splitBar : List String → List String × List String
+  | [] => ([], [])
+  | t :: ts => if t = "|" then ([], ts) else let (a, b) := splitBar ts; (t :: a, b)
+
+/-- value of key k among tokens "k=v" -/
+def kv (toks : List String) (k : String) : String :=
+  match toks.find? (fun t => (k ++ "=").isPrefixOf t) with
+  | some t => (t.drop (k.length + 1)).toString
+  | none => ""
+
+def csv (s : String) : List String := if s = "-" || s = "" then [] else s.splitOn ","
+
+def parseResp (t : String) : Option Resp :=
+  match t with
+  | "ok" => some (.status 200 .other .none)
+  | "ok+s" => some (.status 200 .other .plain)
+  | "ok+st" => some (.status 200 .other .params)
+  | "u-dg" => some (.status 401 .digestOk .none)
+  | "u-db" => some (.status 401 .digestBad .none)
+  | "u-bg" => some (.status 401 .basicOk .none)
+  | "u-bb" => some (.status 401 .basicBad .none)
+  | "u-no" => some (.status 401 .other .none)
+  | "u-ot" => some (.status 401 .other .none)
+  | "mal" | "mal2" | "mal3" => some .malformed
+  | "eof" => some .eof
+  | "rst" => some .reset
+  | "sil" => some .silence
+  | "eofb" => some .eofBody
+  | _ =>
+    if t.length = 4 && t.startsWith "s" then ((t.drop 1).toString.toNat?).map (fun n => .status n .other .none) else none
+
+def parseSdp : String → Option Sdp
+  | "va" => some (.tracks true true false)
+  | "v" => some (.tracks true false false)
+  | "a" => some (.tracks false true false)
+  | "none" => some (.tracks false false false)
+  | "vnoctl" => some (.tracks false false false)
+  | "absctl" => some (.tracks true true true)
+  | "bad" => some .bad
+  | "nofmt" => some .noFormat
+  | _ => none
+
+def parsePlay : String → Option PlayEv
+  | "p0" | "p1" | "p2" | "p3" => some .packet
+  | "opt" => some .request
+  | "resp" => some .response
+  | "ka" => some .idle
+  | "eof" => some .eof
+  | "rst" => some .reset
+  | "sil" => some .silence
+  | "gar" => some .garbage
+  | "trunc" => some .truncated
+  | "stop" | "replace" => some .closedPacket
+  | _ => none
+
+def allSome {α : Type} : List (Option α) → Option (List α)
+  | [] => some []
+  | none :: _ => none
+  | some a :: r => (allSome r).map (a :: ·)
+
+def showMethod : Method → String
+  | .options => "OPTIONS" | .describe => "DESCRIBE" | .setup => "SETUP" | .play => "PLAY"
+
+def showReq (r : Req) : String :=
+  let a := match r.auth with | .none => "none" | .basic => "basic" | .digest => "digest"
+  let c := match r.auth with | .none => "-" | _ => if r.md5 then "md5" else "plain"
+  let s := match r.session with | none => "-" | some false => "s" | some true => "st"
+  s!"{showMethod r.method}:{a}:{c}:{s}"
+
+def showOutcome : Outcome → String
+  | .stream => "stream" | .notFound => "nil" | .hang => "hang" | .panic => "panic"
+
+def parseMethod : String → Option Method
+  | "OPTIONS" => some .options | "DESCRIBE" => some .describe | "SETUP" => some .setup | "PLAY" => some .play
+  | _ => none
+
+def parseSeen (t : String) : Option SeenReq :=
+  match t.splitOn ":" with
+  | [m, a, c, _] =>
+    match parseMethod m with
+    | some m =>
+      let a := match a with | "none" => some Auth.none | "basic" => some Auth.basic | "digest" => some Auth.digest | _ => none
+      let c := match c with | "-" => Cred.none | "plain" => Cred.plain | "md5" => Cred.md5 | _ => Cred.wrong
+      a.map (fun a => { method := m, auth := a, cred := c })
+    | none => none
+  | _ => none
+
+def parseOutcome : String → Option Outcome
+  | "stream" => some .stream | "nil" => some .notFound | "hang" => some .hang | "panic" => some .panic
+  | _ => none
+
+/-- the model's prediction of the observation, in the harness's comparison format -/
+def predict (cfg : Cfg) (script : List Resp) (play : List PlayEv) : String :=
+  let r := openPull genFacts cfg script
+  let reqs := if r.reqs.isEmpty then "" else ",".intercalate (r.reqs.map showReq)
+  match r.outcome with
+  | .stream =>
+    match playStream play with
+    | some eff =>
+      let delivered := (eff.filter (· = .deliver)).length
+      let cleaned := eff.contains .connRelease && eff.contains .unregist && eff.contains .closeConn
+      s!"out=stream;reqs={reqs};closed={boolStr (eff.contains .closeConn)};reg={boolStr (eff.contains .regist)};delivered={delivered};clean={boolStr cleaned}"
+    | none => s!"out=stream;reqs={reqs};closed=0;reg=1;delivered=0;clean=0"
+  | o =>
+    let closed := r.effects.contains .closeConn
+    let clean := closed || !r.effects.contains .dial
+    s!"out={showOutcome o};reqs={reqs};closed={boolStr closed};reg=0;delivered=0;clean={boolStr clean}"
+
+/-- `pull <scenario k=v …> | <observation k=v …>` → `model=<prediction> verdict=<ok|class>` -/
+def handle : List String → String
+  | "pull" :: toks =>
+    let (sc, ob) := splitBar toks
+    match parseSdp (kv sc "sdp"), allSome ((csv (kv sc "script")).map parseResp), allSome ((csv (kv sc "play")).map parsePlay) with
+    | some sdp, some script, some play =>
+      let cfg : Cfg := { hasUser := kv sc "user" = "1", listens := kv sc "listen" = "1", urlPath := kv sc "urlpath" = "1", sdp := sdp }
+      let model := predict cfg script play
+      match parseOutcome (kv ob "out"), allSome ((csv (kv ob "reqs")).map parseSeen) with
+      | some out, some reqs =>
+        let o : Obs := { out := out, dialled := kv ob "dialled" = "1", reqs := reqs, closed := kv ob "closed" = "1",
+                         reg := kv ob "reg" = "1", sent := (kv ob "sent").toNat?.getD 0, delivered := (kv ob "delivered").toNat?.getD 0,
+                         clean := kv ob "clean" = "1", cclosed := kv ob "cclosed" = "1", regAfter := kv ob "regafter" = "1",
+                         cseqOk := kv ob "cseq" = "1", leak := kv ob "leak" = "1" }
+        s!"model={model} verdict={verdict cfg script o}"
+      | _, _ => s!"model={model} verdict=bad-observation"
+    | _, _, _ => "bad-op"
+  | _ => "bad-op"
+
 end IpcHub.Drv.C20
